@@ -7,6 +7,7 @@ import (
 	"crypto/sha256"
 	"encoding/json"
 	"fmt"
+	"strings"
 	"sync"
 	"time"
 
@@ -548,6 +549,11 @@ func runCase(ctx *runner.Ctx, k cs) {
 			return
 		}
 	}
+	if err != nil && strings.HasPrefix(err.Error(), "panic: ") {
+		// the statement lets the sender abort WITH AN ERROR; a crash of the sending process is not that
+		ctx.Violate("sender-panic."+f.Kind+"."+f.Batch, fmt.Sprintf("the sender crashed instead of returning an error: %v (n=%d, fault %+v)", err, k.N, f), k)
+		return
+	}
 	if err != nil {
 		ctx.Outcome("abort/" + f.Kind + "/" + f.Batch)
 		ctx.Nontrivial(cls + fmt.Sprintf("/n=%d", k.N))
@@ -890,6 +896,12 @@ func work(ctx *runner.Ctx) {
 		for _, dc := range []bool{false, true} {
 			nchunks := (n + 511) / 512
 			for ck := 0; ck < nchunks; ck++ {
+				// chunk length +-128 on every chunk (a FULL chunk made longer exceeds the sender's fixed buffers)
+				for _, arg := range []int{1, -1} {
+					if !emit(cs{N: n, Choices: "alt", Seed: seed, DeltaC: dc, F: Fault{Kind: "len", Batch: "payload", Chunk: ck, Arg: arg, Col: -1}}) {
+						return
+					}
+				}
 				rows := 512
 				if ck == nchunks-1 {
 					rows = (n - ck*512 + 7) / 8 * 8
